@@ -808,6 +808,11 @@ class Env:
     def p_Mutex__clear_poison(s, M, st, th, ci, a):
         m = s.tgt(M, st, a[0]); M.write(st, a[0], m.with_field(2, False)); return s.ret(st, UNIT)
     def p_Mutex__is_poisoned(s, M, st, th, ci, a): return s.ret(st, s.tgt(M, st, a[0]).f[2])
+    def p_Mutex__get_mut(s, M, st, th, ci, a):
+        # exclusive access (&mut Mutex): no locking; Err(PoisonError(&mut T)) if poisoned
+        m = s.tgt(M, st, a[0])
+        return s.ret(st, err(Agg('PoisonError', [a[0].field(0)])) if m.f[2] is True else ok(a[0].field(0)))
+
     def p_Mutex__into_inner(s, M, st, th, ci, a):
         m = a[0]
         return s.ret(st, err(Agg('PoisonError', [m.f[0]])) if m.f[2] is True else ok(m.f[0]))
